@@ -11,9 +11,9 @@ abbrev TVal := Option Meta × Option HashInfo
 /-- `Tree._dict`, in insertion order -/
 abbrev Tree := AList Key TVal
 
-def md5Name : Str := "md5".toList
-def dos2unixName : Str := "md5-dos2unix".toList
-def relpathKey : Str := "relpath".toList
+def md5Name : Str := kMd5
+def dos2unixName : Str := ['m','d','5','-','d','o','s','2','u','n','i','x']
+def relpathKey : Str := ['r','e','l','p','a','t','h']
 
 /-- `_hi_to_dict` of `as_list` -/
 def hiToDict : Option HashInfo → JObj
@@ -38,7 +38,7 @@ def asList (withMeta : Bool) (t : Tree) : List JObj :=
 def asBytes (withMeta : Bool) (t : Tree) : List Char := renderList (asList withMeta t)
 
 /-- `digest()`: the identifier is the hash of the listing *without* metadata, plus ".dir" -/
-def digest (H : List Char → Str) (t : Tree) : Str := H (asBytes false t) ++ ".dir".toList
+def digest (H : List Char → Str) (t : Tree) : Str := H (asBytes false t) ++ dirSuffix
 
 /-- one entry of `from_list` -/
 def entryOfDict (hashName : Option Str) (d : JObj) : Option (Key × TVal) :=
@@ -52,8 +52,8 @@ def entryOfDict (hashName : Option Str) (d : JObj) : Option (Key × TVal) :=
       -- `getattr(meta, meta_name)`: only attributes of Meta exist
       let v : Option (Option Str) :=
         if metaName = md5Name then some mt.md5
-        else if metaName = "etag".toList then some mt.etag
-        else if metaName = "checksum".toList then some mt.checksum
+        else if metaName = kEtag then some mt.etag
+        else if metaName = kChecksum then some mt.checksum
         else none
       match v with
       | some v => some (splitC rp, (some mt, some { name := some hn, value := v }))
